@@ -43,6 +43,9 @@ DISTS_RS = ["random_sample", "normal", "randint", "uniform", "poisson", "standar
             "choice"]
 
 
+GC_EACH_RUN = True  # see sim/worker.run_tape
+
+
 def tier_cfg(tier):
     return {"maxdim": 6 if tier == "quick" else 12, "fresh_den": 120 if tier == "quick" else 60}
 
